@@ -54,9 +54,34 @@ Proof. exact Derive.catch_all_arm_present. Qed.
 Print Assumptions C18_match_exhaustive.
 
 Theorem C18_type_level_ignore_rejected : forall d : tdesc,
-  a_ignore (type_attrs d) = true -> derive_accepts d = false.
+  a_ignore (type_attrs d) = true -> no_drop d = false -> derive_accepts d = false.
 Proof. exact Derive.C18_type_level_ignore_rejected. Qed.
 Print Assumptions C18_type_level_ignore_rejected.
+
+(** "Ignored" depends only on the presence of [#[rust_cc(ignore)]] among the attributes of the
+    field / variant, not on its position, its repetition or the unrelated attributes. *)
+Theorem C18_ignore_position_irrelevant : forall pre post : attrs,
+  a_ignore (pre ++ WIgnore :: post) = true.
+Proof. exact Derive.C18_ignore_position_irrelevant. Qed.
+Print Assumptions C18_ignore_position_irrelevant.
+
+Theorem C18_other_attrs_irrelevant : forall a : attrs,
+  a_ignore a = a_ignore (filter (fun w => negb match w with WOther => true | _ => false end) a).
+Proof. exact Derive.C18_other_attrs_irrelevant. Qed.
+Print Assumptions C18_other_attrs_irrelevant.
+
+(** Same as [C18_visit] for the user [trace] calls (field types that cannot hold a [Cc]). *)
+Theorem C18_utrace : forall (d : tdesc) (tv : tvalue), wf_tvalue d tv ->
+  derived_utrace d tv = concat (map utrace (traced_fields d tv)).
+Proof. exact Derive.C18_utrace. Qed.
+Print Assumptions C18_utrace.
+
+(** The Drop impl is emitted also when nothing at all ends up traced. *)
+Theorem C18_drop_untraced : forall d : tdesc,
+  (forall i, derived_calls d i = []) -> no_drop d = false ->
+  emits_drop d = true /\ coherent d true = false.
+Proof. exact Derive.C18_drop_untraced. Qed.
+Print Assumptions C18_drop_untraced.
 
 (** A [Drop] impl is emitted unless [unsafe_no_drop] is given, so that a user-written [Drop]
     is a coherence error (E0119) exactly when the attribute is absent. *)
